@@ -98,6 +98,14 @@ def cases(draw):
 	if c <= 7:
 		src, _ = syngen.gen_module(rnd, rnd.choice(['mixed', 'mixed', 'expr']), friendly=rnd.random() < 0.7)
 		return {'source': src, 'kind': 'ill-typed'}
+	if rnd.random() < 0.25:
+		# well-formed but ill-typed: declarations whose inferred type depends on itself (lazy type resolution recurses), at module level,
+		# in a function, in a class body and as enum members
+		a, b = rnd.sample(['a', 'b', 'x', 'total', 'v1'], 2)
+		shape = rnd.choice([f'{a} = {a}\n', f'{a} = {b}\n{b} = {a}\n', f'{a} = [{a}]\n', f'{a} = lambda: {a}\n', f'{a} = {b} + 1\n{b} = {a} * 2\n',
+			f'def f() -> None:\n\t{a} = {a}\n', f'def f() -> None:\n\t{a} = {b}\n\t{b} = {a}\n', f'from enum import Enum\nclass E(Enum):\n\tA = A\n',
+			f'class K:\n\t{a}: int = {a}\n', f'{a} = {{"k": {a}}}\n', f'{a} = ({a}, 1)\n', f'{a} = {a}.{b}\n', f'{a} = {a}()\n', f'{a} = {a}[0]\n'])
+		return {'source': shape + rnd.choice(['', 'y: int = 1\n']), 'kind': 'cyclic-declaration'}
 	if rnd.random() < 0.3:
 		# bare expression statements at module level: resolved while the module's statements are listed, before any preprocessor runs
 		return {'source': '\n'.join(rnd.choice(ALPHABET).strip() for _ in range(rnd.randint(1, 4))) + '\n', 'kind': 'soup-lines'}
@@ -117,8 +125,15 @@ _apps: dict = {}
 
 def apps(scratch: str):
 	"""(in-memory app, on-disk app with the scratch project as a source dir)."""
+	if _apps.get('interrupted'):
+		# a case was cut off by the watchdog, possibly in the middle of a cache write: the next cases get fresh apps and fresh cache directories
+		n = _apps.get('generation', 0) + 1
+		_apps.clear()
+		_apps['generation'] = n
 	if 'mem' not in _apps:
 		from vf import sut
+		scratch = os.path.join(scratch, f'gen{_apps.get("generation", 0)}')
+		os.makedirs(scratch, exist_ok=True)
 		_apps['mem'] = sut.MemApp(scratch)
 		proj = os.path.join(scratch, 'proj')
 		os.makedirs(proj, exist_ok=True)
@@ -208,6 +223,7 @@ def judge(scratch: str, source: str) -> tuple[list[tuple[str, str]], dict]:
 						fails.append((f'{where}:unparsable-not-Syntax:{outcome}', f'text rejected by CPython and lark was reported as {outcome}'))
 	except Timeout:
 		info['timeout'] = True
+		_apps['interrupted'] = True
 	finally:
 		try:
 			disk.modules.unload(modname)
